@@ -19,8 +19,6 @@ import (
 	"github.com/nuetzliches/hookaido/verif/vfapp"
 )
 
-const limDepth = 8 // queue_limits.max_depth of the near-full frames
-
 var seedBase = time.Date(2026, 1, 1, 0, 0, 0, 0, time.UTC)
 var givenBase = time.Date(2026, 9, 1, 0, 0, 0, 123456789, time.UTC)
 
@@ -38,6 +36,9 @@ type group struct {
 	reqs     int
 	maxDepth int
 	drop     string
+	depth    int // queue_limits.max_depth of the frame (0 = default)
+	room     int // free room the frame wants before every request
+	added    int // messages stored (and cancelled again) on this instance
 }
 
 func onoff(b bool) string {
@@ -47,12 +48,12 @@ func onoff(b bool) string {
 	return "off"
 }
 
-func configText(tab *Table, pol, lim, backend string) string {
+func configText(tab *Table, pol, lim string, depth int, backend string) string {
 	p := tab.Policies[pol]
 	var sb strings.Builder
 	sb.WriteString("ingress {\n  listen 127.0.0.1:0\n}\npull_api {\n  listen 127.0.0.2:0\n  auth token raw:verif-pull-token\n}\nadmin_api {\n  listen 127.0.0.3:0\n}\n")
 	if lim != "none" {
-		fmt.Fprintf(&sb, "queue_limits {\n  max_depth %d\n  drop_policy %s\n}\n", limDepth, lim)
+		fmt.Fprintf(&sb, "queue_limits {\n  max_depth %d\n  drop_policy %s\n}\n", depth, lim)
 	}
 	fmt.Fprintf(&sb, "defaults {\n  max_body %d\n  max_headers %d\n  publish_policy {\n", tab.DefMaxBody, tab.DefMaxHeaders)
 	fmt.Fprintf(&sb, "    direct %s\n    managed %s\n    allow_pull_routes %s\n    allow_deliver_routes %s\n    require_actor %s\n    require_request_id %s\n",
@@ -97,9 +98,9 @@ func configText(tab *Table, pol, lim, backend string) string {
 var bootSeq int64
 
 func bootGroup(opt options, tab *Table, fr Frame, backend string) (*group, error) {
-	g := &group{opt: opt, tab: tab, pol: fr.Pol, lim: fr.Lim, q: fr.Q, backend: backend}
+	g := &group{opt: opt, tab: tab, pol: fr.Pol, lim: fr.Lim, q: fr.Q, backend: backend, depth: fr.Depth, room: fr.Room}
 	g.dir = filepath.Join(opt.scratch, fmt.Sprintf("pub-%d-%s-%s-%s-%s-%d", os.Getpid(), fr.Pol, fr.Lim, fr.Q, backend, atomic.AddInt64(&bootSeq, 1)))
-	text := configText(tab, fr.Pol, fr.Lim, backend)
+	text := configText(tab, fr.Pol, fr.Lim, fr.Depth, backend)
 	db := ""
 	if backend == "sqlite" {
 		if err := os.MkdirAll(g.dir, 0o755); err != nil {
@@ -139,7 +140,8 @@ func (g *group) stop() {
 	os.RemoveAll(g.dir)
 }
 
-func (g *group) needReboot() bool { return g.reqs >= 150 }
+// retained (cancelled) messages count towards the memory store's pressure limit (1000): start over well before
+func (g *group) needReboot() bool { return g.reqs >= 150 || g.added >= 400 }
 
 func (g *group) nextID(p string) string {
 	g.seq++
@@ -222,7 +224,8 @@ func (g *group) ensureSeeds() {
 			active++
 		}
 	}
-	for ; active < limDepth-1; active++ {
+	want := g.depth - g.room
+	for ; active < want; active++ {
 		g.seq++
 		id := fmt.Sprintf("f%05d", g.seq)
 		at := seedBase.Add(time.Duration(10+g.seq) * time.Second)
@@ -234,8 +237,8 @@ func (g *group) ensureSeeds() {
 			enq(id, "/d1", t1, queue.StateQueued, at)
 		}
 	}
-	if active > limDepth-1 {
-		fatal("seed state has %d active messages", active)
+	if active > want {
+		fatal("seed state has %d active messages, want %d", active, want)
 	}
 }
 
@@ -489,7 +492,7 @@ func (g *group) exec(r Row) Event {
 		return qs[i].id < qs[j].id
 	})
 	for i, q := range qs {
-		if i < 12 {
+		if i < 64 {
 			ev.OldQ = append(ev.OldQ, q.id)
 		}
 	}
@@ -522,9 +525,7 @@ func (g *group) exec(r Row) Event {
 				fatal("cleanup cancel: %v", err)
 			}
 		}
-		if len(addedIDs) > 100 {
-			g.reqs = 1 << 20 // a 1000-item batch: start over on a fresh store
-		}
+		g.added += len(addedIDs)
 	}
 	return ev
 }
